@@ -272,21 +272,32 @@ def run(ck: Check) -> None:
         jobs.append({"files": c["files"], "order": c["order"], "filter": c.get("filter") or [],
                      "modes": c.get("modes"), "origin": "corpus:" + os.path.basename(p), "expect": c.get("expect")})
     n_corpus = len(jobs)
-    n_own = ck.n(12, 400)
-    n_sg = ck.n(5, 150)
+    n_own = ck.n(12, 300)
+    n_sg = ck.n(5, 100)
     if os.environ.get("VERIF_C10_N"):            # development aid: "own,schema_gen" sizes
         n_own, n_sg = [int(x) for x in os.environ["VERIF_C10_N"].split(",")]
     own: List[Dict[str, Any]] = []
+    n_over_budget = 0
     for k in range(n_own):
-        rng = random.Random(f"C10:{ck.seed}:own:{k}")
-        jb = cl.G(rng).job()
+        # a schema set above the declaration budget is replaced, deterministically, by the next sub-seed:
+        # a single schema set must never exceed what one coqc evaluates within its memory / time limit
+        for sub in range(20):
+            rng = random.Random(f"C10:{ck.seed}:own:{k}" + (f":{sub}" if sub else ""))
+            jb = cl.G(rng).job()
+            if cl.decl_count(jb["files"]) <= cl.DECL_BUDGET:
+                break
+            n_over_budget += 1
         jb["origin"] = f"own#{k}"
         own.append(jb)
     jobs.extend(own)
     for k in range(n_sg):
-        rng = random.Random(f"C10:{ck.seed}:sg:{k}")
-        params = sg.Params(allow_ext=(k % 2 == 1), max_bits=600, max_leaves=80, max_fields=5)
-        s = sg.Gen(rng, params).schema()
+        for sub in range(20):
+            rng = random.Random(f"C10:{ck.seed}:sg:{k}" + (f":{sub}" if sub else ""))
+            params = sg.Params(allow_ext=(k % 2 == 1), max_bits=600, max_leaves=80, max_fields=5)
+            s = sg.Gen(rng, params).schema()
+            if cl.decl_count(s.texts) <= cl.DECL_BUDGET:
+                break
+            n_over_budget += 1
         order = [s.main] + [f.base + ".bitproto" for f in s.files[1:]]
         msgs = re.findall(r"^\s*message (\w+)", "\n".join(s.texts.values()), flags=re.M)
         jobs.append({"files": dict(s.texts), "order": order, "filter": msgs[: max(1, len(msgs) // 2)],
@@ -316,7 +327,7 @@ def run(ck: Check) -> None:
 
     # ---- case converters: sweep of short strings + the identifiers of this run ----
     alpha = ["a", "b", "A", "B", "1", "_"]
-    depth = ck.n(4, 6)
+    depth = ck.n(4, 5)
     words = [""]
     for k in range(depth):
         words = words + [w + c for w in words if len(w) == k for c in alpha]      # = EmitCheck.words_upto
@@ -335,7 +346,7 @@ def run(ck: Check) -> None:
     results = results[len(conv_jobs):]
 
     shard_items: List[Tuple[str, List[str], List[Any]]] = []
-    # converters: the sweep words are generated inside Coq (no literals), the identifiers are literals
+    # converters: sweep words and identifiers as literals, in chunks that stay small for coqc
     conv_all: List[List[str]] = []
     for cj, cr in zip(conv_jobs, conv_res):
         if "conv" not in cr:
@@ -345,11 +356,15 @@ def run(ck: Check) -> None:
         conv_all.extend(cr["conv"])
     if conv_all:
         exp = [cl.conv_fp(*c) for c in conv_all]
-        sweep_defs = ("Definition sweep_alpha : list ascii := [\"a\"; \"b\"; \"A\"; \"B\"; \"1\"; \"_\"]%char.\n"
-                      f"Definition sweep_exp : list Z := {clist(f'{v}%Z' for v in exp[:n_sweep])}.\n")
-        shard_items.append((sweep_defs,
-                            [f"(Z.of_nat (first_mismatch (map (fun w => conv_fp (unchars w)) (words_upto {depth} sweep_alpha)) sweep_exp 0))"],
-                            [(None, "sweep", None, None)]))
+        # the sweep words are generated inside Coq (EmitCheck.words_upto, no string literals), evaluated in
+        # slices so that no single case file carries the whole sweep; identifiers are literals
+        SL = 1500
+        for q in range(0, n_sweep, SL):
+            ex = exp[q:min(q + SL, n_sweep)]
+            defs = (f"Definition sweep_exp_{q} : list Z := {clist(f'{v}%Z' for v in ex)}.\n")
+            expr = (f"(Z.of_nat (first_mismatch (map (fun w => conv_fp (unchars w)) (firstn {len(ex)} (skipn {q} "
+                    f"(words_upto {depth} [\"a\"; \"b\"; \"A\"; \"B\"; \"1\"; \"_\"]%char)))) sweep_exp_{q} 0))")
+            shard_items.append((defs, [expr], [(None, "sweep", q, None)]))
         for q in range(0, len(id_words), 150):
             ws = id_words[q:q + 150]
             ex = exp[n_sweep + q:n_sweep + q + len(ws)]
@@ -375,14 +390,15 @@ def run(ck: Check) -> None:
         defs, exprs, metas = build_case(j, jb, r)
         shard_items.append((defs, exprs, metas))
 
-    out = cl.run_shards(ck, "c10", shard_items, HEADER, per_shard=8, timeout=600)
+    out = cl.run_shards(ck, "c10", shard_items, HEADER, per_shard=cl.SHARD_MAX_ITEMS, timeout=ck.n(300, 600))
 
     lap("Coq evaluation of the case files")
     # ---- interpretation ----
     conv_bad = [m[2] for m, code in out if m[1] == "conv" and code != 0]
     for m, code in out:
         if m[1] == "sweep" and code != 0:
-            conv_bad.append(words[code - 1] if code - 1 < len(words) else f"#{code}")
+            conv_bad.append(words[m[2] + code - 1])
+
     if conv_bad:
         ck.broken(Broken(f"tie T2: EmitNames.pascal_case/snake_case/upper_case differ from bitproto.utils on "
                          f"{len(conv_bad)} strings, e.g. {conv_bad[:5]!r}", json.dumps(conv_bad[:50])))
@@ -508,6 +524,7 @@ def run(ck: Check) -> None:
                   "inside_known_class": n_inside, "tie_mismatches": n_tie_bad, "mode_runs_clean": n_clean,
                   "mode_runs_outside_pre": n_outside_pre, "mode_runs_in_known_class": n_known,
                   "case_conversion_strings": len(words), "impl_failures": bad_impl,
+                  "schema_sets_over_declaration_budget_replaced": n_over_budget,
                   "corpus_known_reproduced": {k: sorted(v) for k, v in corpus_status.items()}}
     cov["distribution"] = feature
     for jb, r in list(zip(jobs, results))[n_corpus:n_corpus + 2]:
